@@ -47,6 +47,6 @@ m={'version':1,'setup_cmd':'./setup.sh',
  'hooks':{'guard':'cargo feature verif-hooks','enable':'harness/Cargo.toml depends on melda = { path = "/repo", features = ["verif-hooks", ...] }','baseline_off_cmd':'cd /repo && cargo test --workspace --no-fail-fast --offline','source_commits':hooks,'add_only':True},
  'engines':[{'name':'mverif','path':'/verif/harness','serves_properties':sorted(T),'kind_free_text':'Rust binary: proptest-driven stateful history generator, op interpreter with per-property oracles, reference models, sharded over worker processes'}],
  'checks':checks,'not_applicable':na,
- 'notes':'All checks: exit 0 held / exit 1 + VIOLATION line / exit 2 inconclusive. Known findings in /verif/known_findings.txt (fixed: entries only).'}
+ 'notes':'All checks: exit 0 held / exit 1 + VIOLATION line / exit 2 inconclusive. Known findings in /verif/known_findings.txt: 17 fixed: entries (repaired in /repo by fix: commits, suppress nothing) and one known: entry (F17, property C03: content nested >= 127 levels; the C03 check prints KNOWN-FINDING for it and exits 0).'}
 json.dump(m,open('/verif/MANIFEST.json','w'),indent=1)
 print(len(checks),'checks',len(na),'n/a')
